@@ -69,7 +69,14 @@ class LawExec(O.Exec):
             kw["edge_whitelist"] = decode_whitelist(op["wl"])
         from edgegraph.structure.universe import UniverseLaws
 
-        law = UniverseLaws(**kw)
+        if op.get("positional"):
+            # the documented order: edge_whitelist, mixed_links, cycles, multipath, multiverse
+            order = ["edge_whitelist"] + list(RULES)
+            n = op["positional"]
+            args = [kw.pop(name) for name in order[:n]]
+            law = UniverseLaws(*args, **kw)
+        else:
+            law = UniverseLaws(**kw)
         self.w.add(op["new"], law)
         return law
 
@@ -126,9 +133,24 @@ class C19(engine.Property):
         "set-rule-attempt",
         "reassign-same",
         "falsy-universe-released",
+        "ill-typed-assignment-on-bound-pair",
+        "laws-constructed-positionally",
     ]
 
     def make_config(self, rng):
+        cfg = self._make_config(rng)
+        # an ill-typed assignment ends a history: keep it rare
+        w = cfg["weights"]
+        if "bad_assign" in w and rng.random() < 0.6:
+            del w["bad_assign"]
+        elif "bad_assign" in w:
+            w["bad_assign"] = 1
+            for k in w:
+                if k != "bad_assign":
+                    w[k] *= 3
+        return cfg
+
+    def _make_config(self, rng):
         return {
             "steps": gen.geometric_steps(rng, 3, 50, 12) if not (deep_tier() and rng.random() < 0.25) else gen.geometric_steps(rng, 30, 170, 60),
             "deep_bounds": True,
@@ -152,7 +174,7 @@ class C19(engine.Property):
             ),
             "weights": gen.swarm_weights(
                 rng,
-                ["set_laws", "set_applies", "mk_universe", "mk_universe_laws", "mk_laws", "set_rule"],
+                ["set_laws", "set_applies", "mk_universe", "mk_universe_laws", "mk_laws", "set_rule", "bad_assign"],
                 always=("set_laws", "set_applies"),
             ),
         }
@@ -175,9 +197,22 @@ class C19(engine.Property):
                 ]
                 spec.append([rng.choice(WL_NAMES[:3]), inner])
             op["wl"] = spec
+        if rng.random() < 0.3:
+            # pass a prefix of the arguments positionally: every parameter up to
+            # the last one must then be given
+            n = rng.randint(1, 5)
+            order = ["edge_whitelist"] + list(RULES)
+            for name in order[:n]:
+                if name == "edge_whitelist":
+                    op.setdefault("wl", None) if "wl" in op else op["kw"].setdefault("edge_whitelist", None)
+                else:
+                    op["kw"].setdefault(name, rng.random() < 0.5)
+            op["positional"] = n
         return op
 
     def next_op(self, rng, cfg, st):
+        if getattr(st, "ended", False):
+            return None
         if st.pending is None:
             st.pending = []
             for _ in range(cfg["nu"]):
@@ -211,6 +246,10 @@ class C19(engine.Property):
                 }
             if kind == "mk_laws" and len(ls) < cfg["max_l"]:
                 return self._mk_laws(rng, cfg, st)
+            if kind == "bad_assign" and ls and us:
+                if rng.random() < 0.5:
+                    return {"op": "set_applies", "L": rng.choice(ls), "u": {"bad": "obj"}}
+                return {"op": "set_laws", "u": rng.choice(us), "L": {"bad": "obj"}}
             if kind == "set_rule" and ls:
                 rule = rng.choice(RULES + ("edge_whitelist",))
                 val = (
@@ -226,6 +265,15 @@ class C19(engine.Property):
         s = st.stats
         snap = st.snap
         k = op["op"]
+        if isinstance(op.get("L"), dict) or isinstance(op.get("u"), dict):
+            good = op.get("u") if isinstance(op.get("L"), dict) else op.get("L")
+            d = snap.get(good, {})
+            if d.get("laws") is not None or d.get("applies_to") is not None:
+                s["probe:ill-typed-assignment-on-bound-pair"] += 1
+            s["fault:failing-call"] += 1
+            return
+        if k == "mk_laws" and op.get("positional"):
+            s["probe:laws-constructed-positionally"] += 1
         if k == "set_laws" and op["u"] in snap:
             cur = snap[op["u"]].get("laws")
             if op["L"] is None:
@@ -255,6 +303,12 @@ class C19(engine.Property):
             s["probe:set-rule-attempt"] += 1
 
     def execute(self, st, op):
+        if getattr(st, "ended", False):
+            # an ill-typed assignment ends the history: what the library does
+            # with the junk it may have stored is outside the property
+            return None, None
+        if isinstance(op.get("L"), dict) or isinstance(op.get("u"), dict):
+            st.ended_after_this = True
         self._probes(st, op)
         before = st.snap
         out = st.ex.apply(op)
@@ -281,6 +335,11 @@ class C19(engine.Property):
             st.mutations += 1
 
         k = op["op"]
+        bad = isinstance(op.get("L"), dict) or isinstance(op.get("u"), dict)
+        if bad:
+            # an ill-typed value: whether and how the call fails is not the
+            # property's business; the bijection over everything known is
+            k = "bad-assignment"
         if k in ("set_laws", "set_applies", "mk_universe", "mk_laws"):
             if "exc" in out:
                 return out, engine.viol(
@@ -322,7 +381,7 @@ class C19(engine.Property):
         for lab, d in snap.items():
             if "!" in d:
                 return out, engine.viol("C19/accessor-raised", {"obj": lab, "exc": d["!"]})
-            if d["k"] == "u" and d["laws"] is not None:
+            if d["k"] == "u" and d["laws"] is not None and not str(d["laws"]).startswith("?"):
                 ld = snap.get(d["laws"])
                 if ld is None or ld.get("applies_to") != lab:
                     return out, engine.viol(
@@ -334,7 +393,7 @@ class C19(engine.Property):
                             "op": op,
                         },
                     )
-            if d["k"] == "L" and d["applies_to"] is not None:
+            if d["k"] == "L" and d["applies_to"] is not None and not str(d["applies_to"]).startswith("?"):
                 ud = snap.get(d["applies_to"])
                 if ud is None or ud.get("laws") != lab:
                     return out, engine.viol(
@@ -346,6 +405,8 @@ class C19(engine.Property):
                             "op": op,
                         },
                     )
+        if getattr(st, "ended_after_this", False):
+            st.ended = True
         # rule read-backs
         for lab, exp in st.rules.items():
             law = w.objs.get(lab)
